@@ -28,6 +28,7 @@ type TxMode struct {
 	Every int    // every n-th message is a candidate for a real transaction (0 = never)
 	Salt  uint64 // drawn per case; shapes and probes are a function of (Salt, message number)
 	// counters
+	Windows, WindowsFailed                                                                                    int
 	Delivered, Amino, Prefixed, Simulated, Checked, LowGas, LowGasRanOut, FailingTail, GasFallback, Ineligible int
 	// Keys: additional key accounts a test knows about (address string -> account)
 	Keys map[string]Acc
@@ -241,6 +242,12 @@ func (v *VestWorld) TxClasses() (cl []string) {
 	if x.FailingTail > 0 {
 		cl = append(cl, "tx_layer:rolled_back_by_a_failing_later_message")
 	}
+	if x.Windows > 0 {
+		cl = append(cl, "tx_layer:several_messages_of_a_history_redelivered_as_one_transaction")
+	}
+	if x.WindowsFailed > 0 {
+		cl = append(cl, "tx_layer:one_transaction_with_a_failing_message_rolled_back")
+	}
 	if x.GasFallback > 0 {
 		cl = append(cl, "tx_layer:gas_limit_fallback_to_direct_execution")
 	}
@@ -296,4 +303,169 @@ func (v *VestWorld) txDigest() string {
 // txViolation reports a violation found by the transaction layer itself.
 func (v *VestWorld) txViolation(f string, a ...interface{}) {
 	panic("transaction layer: " + fmt.Sprintf(f, a...))
+}
+
+// SimulateMsg: the node estimates the gas of a transaction carrying msg (baseapp's Simulate: the ante
+// handler and the message handlers run in check mode on a branch that is thrown away).  Returns whether
+// the simulated execution succeeded; ok is false when the message cannot travel in a transaction signed
+// by a key the harness holds.
+func (v *VestWorld) SimulateMsg(msg sdk.Msg) (succeeded, ok bool) {
+	var signers []sdk.AccAddress
+	func() {
+		defer func() { _ = notRapid(recover()) }()
+		if msg.ValidateBasic() == nil {
+			signers = msg.GetSigners()
+		}
+	}()
+	if len(signers) != 1 {
+		return false, false
+	}
+	signer, found := v.keyOf(signers[0])
+	acc := v.App.AccountKeeper.GetAccount(v.Ctx, signers[0])
+	if !found || acc == nil {
+		return false, false
+	}
+	bz, err := SignTx(v.W, signer, acc.GetAccountNumber(), acc.GetSequence(), TxOpts{}, msg)
+	if err != nil {
+		return false, false
+	}
+	_, _, err = SimulateOnBranch(v.App, v.Ctx, bz)
+	return err == nil, true
+}
+
+// ---------------------------------------------------------------- several messages in one transaction
+
+// A transaction window: the messages run between BeginTxWindow and EndTxWindow are executed one by one
+// as always (with all per-message oracles), on a branch of the state; EndTxWindow then delivers the same
+// messages as ONE signed transaction (baseapp's real DeliverTx, all signers signing) on a sibling branch
+// and compares: if every message succeeded one by one, the transaction must succeed and leave exactly
+// the same state; if one of them failed, the transaction must fail and leave nothing.  Nothing but
+// v.Run may touch the state inside a window (no clock changes, no direct keeper calls).
+type txWindow struct {
+	parent sdk.Context
+	write  func()
+	msgs   []sdk.Msg
+	ok     []bool
+}
+
+func (v *VestWorld) BeginTxWindow() {
+	if v.win != nil {
+		panic("harness: nested transaction window")
+	}
+	child, write := v.Ctx.CacheContext()
+	v.win = &txWindow{parent: v.Ctx, write: write}
+	v.Ctx = child
+}
+
+// AbandonTxWindow closes an open window without the comparison (an action gave up half-way).
+func (v *VestWorld) AbandonTxWindow() {
+	if w := v.win; w != nil {
+		v.win = nil
+		w.write()
+		v.Ctx = w.parent
+	}
+}
+
+// fullDigest hashes every key/value of the application's stores as seen through ctx.
+func (v *VestWorld) fullDigest(ctx sdk.Context) string {
+	h := sha256.New()
+	for _, name := range txDigestStores {
+		key := v.App.GetKey(name)
+		if key == nil {
+			continue
+		}
+		it := ctx.KVStore(key).Iterator(nil, nil)
+		for ; it.Valid(); it.Next() {
+			h.Write([]byte{0})
+			h.Write(it.Key())
+			h.Write([]byte{1})
+			h.Write(it.Value())
+		}
+		it.Close()
+	}
+	return hex.EncodeToString(h.Sum(nil))
+}
+
+// EndTxWindow closes the window; compared reports whether the one-transaction twin was run.
+func (v *VestWorld) EndTxWindow(f failer) (compared bool) {
+	w := v.win
+	if w == nil {
+		panic("harness: no transaction window open")
+	}
+	v.win = nil
+	seqCtx := v.Ctx
+	defer func() {
+		w.write()
+		v.Ctx = w.parent
+	}()
+	if len(w.msgs) < 2 {
+		return false
+	}
+	// signers in order of first appearance, each with the account the window started from
+	var signers []Acc
+	var accNums, seqs []uint64
+	seen := map[string]bool{}
+	allOK := true
+	for i, m := range w.msgs {
+		allOK = allOK && w.ok[i]
+		var ss []sdk.AccAddress
+		func() {
+			defer func() { _ = notRapid(recover()) }()
+			ss = m.GetSigners()
+		}()
+		if len(ss) != 1 {
+			return false
+		}
+		if seen[ss[0].String()] {
+			continue
+		}
+		seen[ss[0].String()] = true
+		k, found := v.keyOf(ss[0])
+		acc := v.App.AccountKeeper.GetAccount(w.parent, ss[0])
+		if !found || acc == nil || (acc.GetPubKey() != nil && !bytes.Equal(acc.GetPubKey().Bytes(), k.Priv.PubKey().Bytes())) {
+			return false // e.g. the signer only came into being inside the window
+		}
+		signers = append(signers, k)
+		accNums = append(accNums, acc.GetAccountNumber())
+		seqs = append(seqs, acc.GetSequence())
+	}
+	bz, err := SignTxMulti(v.W, signers, accNums, seqs, TxOpts{}, w.msgs...)
+	if err != nil {
+		return false
+	}
+	twin, _ := w.parent.CacheContext()
+	r := DeliverOnBranch(v.App, twin, bz)
+	if r.Code == 11 && r.Codespace == "sdk" {
+		return false // the harness's gas limit
+	}
+	// take back the ante handler's effects on the signers' records, on the twin
+	saved := v.Ctx
+	v.Ctx = twin
+	for i, s := range signers {
+		pre := v.App.AccountKeeper.GetAccount(w.parent, s.Addr)
+		v.takeBackAnte(s, seqs[i], pre.GetPubKey() != nil)
+	}
+	v.Ctx = saved
+	v.Tx.Windows++
+	var types []string
+	for _, m := range w.msgs {
+		types = append(types, sdk.MsgTypeURL(m))
+	}
+	if allOK {
+		if r.Code != 0 {
+			f.Fatalf("%d messages succeeded one by one, the same messages in one transaction were refused (code %d: %s)\nmessages: %v", len(w.msgs), r.Code, firstLine(r.Log), types)
+		}
+		if v.fullDigest(twin) != v.fullDigest(seqCtx) {
+			f.Fatalf("%d messages delivered in one transaction left another state than the same messages delivered one by one\nmessages: %v", len(w.msgs), types)
+		}
+	} else {
+		if r.Code == 0 {
+			f.Fatalf("one of %d messages failed when they were delivered one by one, but the transaction carrying all of them succeeded\nmessages: %v results: %v", len(w.msgs), types, w.ok)
+		}
+		if v.fullDigest(twin) != v.fullDigest(w.parent) {
+			f.Fatalf("a transaction of %d messages failed (code %d: %s) and still changed the state\nmessages: %v", len(w.msgs), r.Code, firstLine(r.Log), types)
+		}
+		v.Tx.WindowsFailed++
+	}
+	return true
 }
